@@ -168,6 +168,39 @@ def massaction_job(interp, c, case, domain, routes, modes=None):
             _prove(c, vals[i] == want, "%s rxn%d %s %s" % (tag, i, mode, route), sig, rp)
 
 
+def bare_class_job(interp, c, case, domain):
+    """the general mass-action class itself, initialised directly for every order (a Model uses it from order 3 on, and the
+    constitutive / unimolecular / bimolecular classes below that): case = reactant list"""
+    T = interp.load("bioscrape.types")
+    reactants = list(case)
+    k = c.real("k0", lo=0, lo_strict=True)
+    V = c.real("V", lo=0, lo_strict=True)
+    t = c.real("t", lo=0)
+    state = {sp: (c.int("s_" + sp, lo=0) if domain == "int" else c.real("s_" + sp, lo=0)) for sp in SPECIES}
+    syms = {"V": V, "t": t, "k0": k, **{"s_" + s_: v for s_, v in state.items()}}
+    P = T.ns["MassActionPropensity"]()
+    P.initialize({"k": "kp", "species": "*".join(reactants)}, {sp: i for i, sp in enumerate(SPECIES)}, {"kp": 0})
+    sv = np.array([state[sp] for sp in SPECIES], dtype=object)
+    pv = np.array([k], dtype=object)
+    tag = "MassActionPropensity[%s] initialised directly" % ("*".join(reactants) or "0")
+    for mode in MODES:
+        base = dict(kind="massaction_class", reactants=reactants, mode=mode, domain=domain, syms=syms)
+        try:
+            if mode == "deterministic":
+                val = P.get_propensity(_ptr(interp, sv.copy()), _ptr(interp, pv), t)
+            elif mode == "volume":
+                val = P.get_volume_propensity(_ptr(interp, sv.copy()), _ptr(interp, pv), V, t)
+            elif mode == "stochastic":
+                val = P.get_stochastic_propensity(_ptr(interp, sv.copy()), _ptr(interp, pv), t)
+            else:
+                val = P.get_stochastic_volume_propensity(_ptr(interp, sv.copy()), _ptr(interp, pv), V, t)
+        except CFault as e:
+            _prove(c, False, "%s %s: memory-unsafe access (%s)" % (tag, mode, e), "unsafe-access class %s" % mode, base)
+            continue
+        want = massaction_closed(k, state, reactants, mode, V)
+        _prove(c, val == want, "%s %s" % (tag, mode), "massaction class order %d %s" % (len(reactants), mode), base)
+
+
 def _prove(c, cond, label, sig, rp):
     from pyxsym.sym import zbool
     import z3
@@ -271,6 +304,8 @@ def check(tier):
         for i, ch in enumerate(_chunks(hs, 12 if tier == "thorough" else 6)):
             ck.add("hill/%s/%d" % (domain, i), "harness.C01", "hill_job",
                    dict(cases=ch, domain=domain, routes=routes))
+        cls_cases = [lst for order in range(0, 4) for lst in itertools.product(SPECIES, repeat=order) if order < 3 or lst[0] == "A" or tier == "thorough"]
+        ck.add("massaction-class/%s" % domain, "harness.C01", "bare_class_job", dict(cases=cls_cases, domain=domain))
     ck.bounds = dict(reaction_order="0..4", species_pool=3, reactions_per_model=1,
                      hill_exponent="free positive real (uninterpreted pow) and %s" %
                                    ("1..4" if tier == "thorough" else "1..3"),
